@@ -244,6 +244,12 @@ func oracleC17() *Result {
 	for _, b := range docCombos(rng, nc) {
 		add(b, nil, "7.4", "doc-combo")
 	}
+	for i, b := range signChainSources() {
+		if opts.Tier == "thorough" || i%3 == 0 {
+			add(b, nil, "7.4", "sign-chain")
+			add(b, nil, "5.6", "sign-chain")
+		}
+	}
 	var pool [][]byte
 	for _, t := range tasks {
 		if t.Cfg == "7.4" {
